@@ -15,6 +15,7 @@ from .values import FAll, FAnd, FImp, FT, F
 
 RLIMIT = int(os.environ.get("VF_RLIMIT", "60000000"))
 CAND_STEPS = (10, 40)
+TIMEOUT_MS = int(os.environ.get("VF_TIMEOUT_MS", "30000"))   # wall-clock guard on top of the deterministic rlimit
 
 from .theory import analyze_all
 
@@ -130,6 +131,7 @@ def discharge(ob: Obligation, ex, rlimit=RLIMIT):
             facts, goal = build_query(ob, ex, ncands=n)
             s = z3.Solver()
             s.set("rlimit", rlimit)
+            s.set("timeout", TIMEOUT_MS)
             s.set("random_seed", 7)
             for f in facts:
                 s.add(f)
@@ -203,6 +205,7 @@ def _discharge_group(obs, rlimit):
         return
     s = z3.Solver()
     s.set("rlimit", rlimit)
+    s.set("timeout", TIMEOUT_MS)
     s.set("random_seed", 7)
     for f in facts:
         s.add(f)
